@@ -4,11 +4,15 @@ import (
     "encoding/base64"
     "encoding/json"
     "fmt"
+    "time"
 
     "Havoc/pkg/agent"
     "Havoc/pkg/logger"
     "Havoc/pkg/utils"
 )
+
+// ServiceResponseTimeout is how long the handler of an agent request waits for the service's answer
+const ServiceResponseTimeout = 10 * time.Second
 
 type CommandParam struct {
     Name       string `json:"Name"`
@@ -123,7 +127,14 @@ func (a *AgentService) SendResponse(AgentInfo any, Header agent.Header) []byte {
         return nil
     }
 
-    var data = <-channel
+    var data []byte
+
+    // the answer, nothing when the service went away, or nothing when the service does not answer in time
+    select {
+    case data = <-channel:
+    case <-time.After(ServiceResponseTimeout):
+        logger.Error(fmt.Sprintf("service agent %v did not answer an agent request within %v", a.Name, ServiceResponseTimeout))
+    }
 
     a.client.responseDrop(randID)
 
